@@ -422,3 +422,45 @@ def guard_terms(node, stop=None):
                                 b.exec_stmt(st)
         out.append((T.simp(b.t(test)), truth))
     return out
+
+
+def wrapper_forwarding(ctx, f):
+    """for a scipy-style wrapper: which settings reach the solver before Solve on every normal path.
+    Returns {setter: [(path, args terms, kws dict, literals)]} for calls <solver>.<Setter>(...) that precede <solver>.Solve(...),
+    plus 'paths' = number of paths that reach Solve; the solver variable is found as the receiver of .Solve"""
+    solves = calls_where(f.node, lambda c: isinstance(c.func, ast.Attribute) and c.func.attr == 'Solve' and isinstance(c.func.value, ast.Name), include_lambda=False)
+    if not solves:
+        raise AnalysisError('%s never calls <solver>.Solve' % f.qualname)
+    sv = solves[0].func.value.id
+
+    def rel(n):
+        if isinstance(n, ast.Call) and isinstance(n.func, ast.Attribute) and isinstance(n.func.value, ast.Name) and n.func.value.id == sv:
+            return True
+        return isinstance(n, (ast.Return, ast.Raise))
+    out = {'paths': 0, 'solver': sv}
+    paths = [p for p in enumerate_paths(f.node, relevant=rel, unroll=(0, 1)) if p.exit != 'raise']
+    for p in paths:
+        b = T.Builder()
+        lits = []
+        seen_here = {}
+        solved = False
+        for e in p.events:
+            if e[0] == 'cond':
+                c, tr = T.simp(b.t(e[1])), e[2]
+                while isinstance(c, tuple) and c and c[0] == 'not':
+                    c, tr = c[1], not tr
+                lits.append((c, tr))
+            elif e[0] == 'stmt':
+                st = e[1]
+                for c in calls_where(st, lambda c: isinstance(c.func, ast.Attribute) and isinstance(c.func.value, ast.Name) and c.func.value.id == sv, include_lambda=False):
+                    if c.func.attr == 'Solve':
+                        solved = True
+                    elif not solved:
+                        seen_here.setdefault(c.func.attr, []).append((p, [T.simp(b.t(a)) for a in c.args],
+                                                                    dict((k.arg, T.simp(b.t(k.value))) for k in c.keywords if k.arg), list(lits)))
+                if isinstance(st, ast.Assign) and all(isinstance(tg, (ast.Name, ast.Tuple)) for tg in st.targets):
+                    b.exec_stmt(st)
+        if solved:
+            out['paths'] += 1
+            out.setdefault('per_path', []).append((p, seen_here, list(lits)))
+    return out
